@@ -2,13 +2,14 @@
 (* S->C export for C06: for every per-axis (old chunk, new chunk, factor)   *)
 (* TLC enumerates the outcome of every old size 1..MaxSize (one letter per  *)
 (* size: C Correct, E Error, S SilentWrong) and whether the scale generator *)
-(* (ScaleGen.tla transcription, code position of the switches) can emit the *)
+(* (ScaleGen.tla transcription, conforming switch positions)   can emit the *)
 (* chunk pair with that factor ratio on some axis of some level, over       *)
 (* resolution triples up to 40:1 (and fractional) and targets 2..256.       *)
 (* The harness turns every distinct class (o, n, f, outcome, size) into     *)
 (* 3-D infos for the real pyramid code.                                     *)
 EXTENDS PyramidAssembly, Json
-SG == INSTANCE ScaleGen WITH StopRule <- "minusDelay", ChunkRule <- "code"
+SG == INSTANCE ScaleGen WITH StopRule <- "plusDelay", ChunkRule <- "delayAware",
+                             ReduceRule <- "loop", KeyRule <- "fallback"
 
 MaxSize == 40
 Chunks == {1, 2, 4, 8, 16}
@@ -17,7 +18,8 @@ R1 == {<<1,1>>, <<2,1>>, <<3,1>>, <<4,1>>, <<5,1>>, <<7,1>>, <<8,1>>, <<12,1>>, 
 \* the emitted chunk pairs only depend on the delay triple and the target
 DelayTriples == {SG!Delays([res |-> <<x, y, z>>]) : x \in R1, y \in R1, z \in R1}
 EmitOf(d, t) ==
-  SG!EmitTriples([T |-> t], [d |-> d, D |-> SG!MaxOf3(d), unit |-> 5, levels |-> 14], 14)
+  SG!EmitTriples([T |-> t], [d |-> d, D |-> SG!MaxOf3(d), unit |-> 5, levels |-> 14,
+                              keys |-> << >>], 14)
 Emittable == UNION {EmitOf(d, t) : d \in DelayTriples, t \in 1..8}
 
 Letter(out) == IF out = "Correct" THEN "C" ELSE IF out = "Error" THEN "E" ELSE "S"
